@@ -174,7 +174,7 @@ def runtime_part(run, jobs):
             entry["ref"] = jobs.submit(dict(base, mode="full", keep_text=True))
             h2 = str(rng.randrange(1, 2 ** 32 - 1))
             entry["rep"] = [(dict(hashseed=h2, perturb=p), jobs.submit(dict(base, mode="full", perturb=p), hashseed=h2))
-                            for p in ([0, 3] if not thorough else [0, 1, 3, 8])]
+                            for p in ([1, 3, 6] if not thorough else [0, 1, 2, 3, 5, 6])]
             entry["save"] = {k: jobs.submit(dict(base, mode="save", k=k, protocols=protocols, ckpt=ck))
                              for k in range(0, ngen + 1)}
             ws = pool_workers or sorted(rng.sample(range(1, 9), 3))
@@ -191,6 +191,7 @@ def runtime_part(run, jobs):
     blocked = []
     per_family = {}
     orders_seen = set()
+    type_orders = set()
     for e in plan:
         cfg = e["cfg"]
         fam_cov = per_family.setdefault(cfg, {"label": e["label"], "seeds": 0, "fresh_reruns": 0, "resumes": 0,
@@ -242,6 +243,8 @@ def runtime_part(run, jobs):
                                      observed=(r["res"] or {}).get("error") or r["log"])
                 continue
             r["res"]["hashseed"] = var["hashseed"]
+            if "type_set_order" in r["res"]:
+                type_orders.add(tuple(r["res"]["type_set_order"]))
             d = compare(ref, r["res"])
             fam_cov["fresh_reruns"] += 1
             if d or len(r["res"]["boundaries"]) != ngen + 1:
@@ -271,7 +274,7 @@ def runtime_part(run, jobs):
                         run.oracle_violation("checkpoint cannot be pickled", casep, observed=msg)
                     continue
                 hs = "0" if rng.random() < 0.5 else str(rng.randrange(1, 2 ** 32 - 1))
-                pert = rng.choice([0, 0, 1, 2, 5])
+                pert = rng.choice([0, 1, 2, 3, 5, 7])
                 var = dict(hashseed=hs, perturb=pert)
                 resumes.append((dict(casep, **var),
                                 jobs.submit(dict(e["base"], mode="resume", k=k, protocol=p, ckpt=e["ck"], perturb=pert),
@@ -284,6 +287,8 @@ def runtime_part(run, jobs):
                 continue
             res = r["res"]
             res["hashseed"] = case["hashseed"]
+            if "type_set_order" in res:
+                type_orders.add(tuple(res["type_set_order"]))
             if res["error"] is not None:
                 msg = "%s: %s" % (res["error"]["type"], res["error"]["msg"])
                 if res["error"]["at_gen"] == 0 and is_c16_pickle_issue(cfg, p, msg):
@@ -323,7 +328,8 @@ def runtime_part(run, jobs):
     run.extra_cov["runtime_part"] = {"families": per_family, "generations": ngen, "protocols": protocols,
                                      "distinct_completion_orders": len(orders_seen),
                                      "completion_orders_not_submission_order": len(nonid),
-                                     "subprocesses": jobs.launched, "blocked": blocked}
+                                     "subprocesses": jobs.launched, "blocked": blocked,
+                                     "iteration_orders_of_the_set_of_gp_type_objects_seen": sorted("/".join(o) for o in type_orders)}
     for b in blocked:
         run.notes.append("BLOCKED " + b)
 
